@@ -40,7 +40,7 @@ PROPS = {
                          thorough=r'^k_order_|^k_task_\w+_find_|^k_glue_\w+_find_|^k_api_(par2|seq)_\w+_(find|first|any|all)_n' + COMP),
         trusted_base=[T1, T5, T6, A64, ARITH, RSCHED, STUBS, MODEL],
         assumptions=[TASK_BOUND, 'early exit: for every frontier f >= the block in which some worker matched, blocks <= f are delivered to their owners (exactly the possibilities under T1)'],
-        explanation='Verus (unbounded): maybe_reduce case table (None neutral, reduce applied once in order on Some/Some); Runner::reduce folds every worker result once in spawn order. Lemma L2 (unit merge, pure spec): min-by-index over the per-worker first matches is the global first match for any number of workers, any assignment and any admissible early-exit frontier. Kani (bounded): each find kernel task returns the first survivor of its blocks with its source index; kernel glue with the min-by-index reduce returns the global first match for every block->worker table and every early-exit frontier, None iff nothing matches; find/first/any/all through the public API agree with std. ' + MC_TEXT,
+        explanation='Verus (unbounded): maybe_reduce case table (None neutral, reduce applied once in order on Some/Some); Runner::reduce folds every worker result once in spawn order. Lemma L2 (unit merge, pure spec): min-by-index over the per-worker first matches is the global first match for any number of workers, any assignment and any admissible early-exit frontier. Unit dispatch: the three find dispatchers return the result of the sequential kernel when is_sequential() and that of the parallel kernel otherwise (they do not answer by themselves for any input). Kani (bounded): each find kernel task returns the first survivor of its blocks with its source index; kernel glue with the min-by-index reduce returns the global first match for every block->worker table and every early-exit frontier, None iff nothing matches; find/first/any/all through the public API agree with std. ' + MC_TEXT,
     ),
     'C03': dict(
         level='model_checking', verus_units=['utils', 'core', 'redtasks', 'dispatch', 'merge'],
@@ -76,7 +76,7 @@ PROPS = {
                          thorough=r'^k_merge_|^k_glue_\w+_col_n|^k_api_\w+_into_'),
         trusted_base=[T1, T2, T3, T4, T5, ASPEC, A64, RSCHED, STUBS, MODEL],
         assumptions=[TASK_BOUND, 'targets hold one pre-existing symbolic element'],
-        explanation='Verus (unbounded): the merge appends after the untouched prefix old(output); the chunked arm of map_col::task writes only at positions >= the number of pre-existing elements (offset + chunk.begin_idx); Vec::map_into and SplitVec::map_into reserve (concurrent) capacity for existing + new elements before the target becomes an ordered bag (T2 precondition of map_col) and hand back the existing contents as a prefix, for every existing length and every source length. Kani (bounded): collect_into for Vec / SplitVec / FixedVec targets with symbolic pre-existing contents, map-only (ordered bag) and filtering (merge) pipelines, known and unknown source length, parallel and num_threads(1): result == existing ++ std chain. ' + MC_TEXT,
+        explanation='Verus (unbounded): the merge appends after the untouched prefix old(output); the chunked arm of map_col::task writes only at positions >= the number of pre-existing elements (offset + chunk.begin_idx); Vec::map_into and SplitVec::map_into reserve (concurrent) capacity for existing + new elements before the target becomes an ordered bag (T2 precondition of map_col) and hand back the existing contents as a prefix, for every existing length and every source length; the six filtering *_filter_into methods of Vec / SplitVec and the four methods of FixedVec keep the previous contents in front. Kani (bounded): the REAL merge with one and with two worker vectors after a non-empty prefix; collect_into for Vec / SplitVec / FixedVec targets with symbolic pre-existing contents, map-only (ordered bag) and filtering (merge) pipelines, known and unknown source length, parallel and num_threads(1): result == existing ++ std chain. ' + MC_TEXT,
     ),
     'C07': dict(
         level='model_checking', verus_units=['core', 'redtasks', 'colx', 'merge'],
@@ -85,7 +85,7 @@ PROPS = {
                          thorough=r'^k_task_\w+_col_x_|^k_glue_\w+_col_x_|^k_api_\w+_collect_x_n|^k_api_seq_\w+_collect_n' + COMP),
         trusted_base=[T1, T4, T5, RSCHED, STUBS, MODEL],
         assumptions=[TASK_BOUND, 'flat_map collect_x kernels are in the thorough tier only (each harness needs 6-10 min of CBMC time)'],
-        explanation='Verus (unbounded): Runner::run_map keeps exactly one vector per worker; in the three collect_x kernel tasks the worker vector keeps what it collected and its length is the sum of the survivors of the chunks it pulled (RW25/RW26). Kani (bounded): each collect_x kernel task returns the multiset of survivors of its blocks; glue with the real SplitVec::append and collect_x through the API are multiset-equal to the std chain. ' + MC_TEXT,
+        explanation='Verus (unbounded): Runner::run_map keeps exactly one vector per worker; in the three collect_x kernel tasks the worker vector keeps what it collected and its length is the sum of the survivors of the chunks it pulled (RW25/RW26); the three dispatching collect_x terminals (unit colx) return SplitVec::from(collect()) when sequential and otherwise the output of the unordered kernel for the parameters of the computation, source and closures; lemma L4 (the per-worker survivor counts add up). Kani (bounded): the 17 closure-composition sites of src/par in sequential mode (count and non-commutative reduce against the std chain); each collect_x kernel task returns the multiset of survivors of its blocks; glue with the real SplitVec::append and collect_x through the API are multiset-equal to the std chain. ' + MC_TEXT,
     ),
     'C08': dict(
         level='proof', verus_units=['core', 'dispatch', 'into', 'colx'],
@@ -94,7 +94,7 @@ PROPS = {
                          thorough=r'^k_pair_|^k_lazy_|^k_order_|^k_api_seq_'),
         trusted_base=[T1, T5, T7, AHW, A64, ARITH, STUBS, MODEL],
         assumptions=['workers of one run are the only threads executing closures during it and are joined before the run returns (T5)', TASK_BOUND + ' (only for the Max(1) clause: data bounded, parameters fully symbolic)'],
-        explanation='Verus (unbounded): calc_num_threads(len, Max(n)) <= n; Runner::new gives 1 <= max_num_threads <= n; every run/run_map/reduce spawns between 1 and max_num_threads workers for every sequence of has_more() answers; is_sequential() <=> Max(1); the nine kernel entry points of src/core and the six filtering collect_into methods of Vec / SplitVec enter the parallel kernel (the only code that reaches the Runner) only when !is_sequential() (units dispatch, into). Kani: with num_threads(1) and a fully symbolic chunk_size no terminal reaches the Runner (its three entry points are replaced by assert!(false)) and nothing is pulled through the concurrent interface.',
+        explanation='Verus (unbounded): calc_num_threads(len, Max(n)) <= n; Runner::new gives 1 <= max_num_threads <= n; every run/run_map/reduce spawns between 1 and max_num_threads workers for every sequence of has_more() answers; is_sequential() <=> Max(1); the nine kernel entry points of src/core and the six filtering collect_into methods of Vec / SplitVec enter the parallel kernel (the only code that reaches the Runner) only when !is_sequential() (units dispatch, into), likewise the three dispatching collect_x terminals (unit colx). Kani: with num_threads(1) and a fully symbolic chunk_size no terminal reaches the Runner (its three entry points are replaced by assert!(false)) and nothing is pulled through the concurrent interface.',
     ),
     'C09': dict(
         level='model_checking', verus_units=['core', 'dispatch', 'into', 'colx'],
@@ -102,7 +102,7 @@ PROPS = {
         kani_select=dict(quick=r'^k_lazy_|^k_order_|^k_api_seq_', thorough=r'^k_lazy_|^k_order_|^k_api_seq_'),
         trusted_base=[T7, STUBS, MODEL],
         assumptions=[TASK_BOUND + '; chunk_size fully symbolic (Auto / Exact(c) / Min(c), any c)'],
-        explanation='Verus (unbounded): is_sequential() <=> num_threads == Max(1); 15 dispatch functions take the sequential (plain iterator) path exactly when is_sequential(). Kani (bounded in data, complete in parameters): for every terminal and iterator type with num_threads(1) the value equals the std chain and the SEQUENCE of (stage, position) closure calls is identical to the std chain (so reduce/fold are left-to-right); nothing reaches the Runner. ' + MC_TEXT,
+        explanation='Verus (unbounded): is_sequential() <=> num_threads == Max(1); 18 dispatch functions (9 kernel entry points, 6 filtering collect_into methods, 3 collect_x terminals) take the sequential (plain iterator) path exactly when is_sequential() and return the result of that path. Kani (bounded in data, complete in parameters): for every terminal and iterator type with num_threads(1) the value equals the std chain and the SEQUENCE of (stage, position) closure calls is identical to the std chain (so reduce/fold are left-to-right); nothing reaches the Runner. ' + MC_TEXT,
     ),
     'C10': dict(
         level='other', verus_units=['core', 'dispatch'],
@@ -136,7 +136,7 @@ PROPS = {
         kani_select=dict(quick=r'^k_drop_|^k_dep_heap|^k_dep_bag', thorough=r'^k_drop_|^k_dep_heap|^k_dep_bag'),
         trusted_base=[T1, T2, T3, T4, T5, ASPEC, A64],
         assumptions=['the final `set_len(0)` loop of the merge is accepted by Verus but its effect (lengths 0) is not proved (iter_mut prophecy specs); drops inside the dependencies under real concurrency are not covered', TASK_BOUND + ' (drop harnesses: 3 owned items with drop counters, real ConIterOfVec, one worker)'],
-        explanation='Verus (unbounded, real text): the merge reads every (vector, index) slot exactly once (ghost ledger `reads` is a bijection onto all slots) and pushes exactly that value to the output, so each value is owned exactly once by the output; Runner::run_map hands back every worker vector exactly once. Kani (bounded): a drop-counting item type through filter+collect (merge path), map+collect (ordered bag path) and find with early exit over the real ConIterOfVec: after the result is dropped every item has been dropped exactly once, none twice before.',
+        explanation='Verus (unbounded, real text): the merge reads every (vector, index) slot exactly once (ghost ledger `reads` is a bijection onto all slots) and pushes exactly that value to the output, so each value is owned exactly once by the output; every source vector is emptied at exit and emptied by set_len (ghost marker: no other way of shortening, which would drop the moved-out slots again, satisfies the cleanup invariant); Runner::run_map hands back every worker vector exactly once. Kani (bounded): a drop-counting item type through filter+collect (merge path), map+collect (ordered bag path) and find with early exit over the real ConIterOfVec: after the result is dropped every item has been dropped exactly once, none twice before.',
     ),
     'C15': dict(
         level='proof', verus_units=['core', 'into', 'dispatch', 'colx'],
